@@ -44,7 +44,8 @@ static uint64_t bits(const T &x) {
   return h;
 }
 
-template <typename T>
+// P: a position power that no earlier part of the process has used (first use happens concurrently)
+template <typename T, size_t P>
 static std::vector<uint64_t> work(const Shared<T> &sh, unsigned tid, unsigned rounds) {
   std::vector<uint64_t> out;
   std::mt19937 rng(1234567u + tid);
@@ -52,6 +53,7 @@ static std::vector<uint64_t> work(const Shared<T> &sh, unsigned tid, unsigned ro
   const auto hamilton = static_cast<T>(-1) / static_cast<T>(2) * Dx<2>{} + SplineOperator{sh.potential};
   const BilinearForm hform{hamilton};
   const LinearForm lform{X<1>{}};
+  const LinearForm pform{X<P>{}};
   for (unsigned r = 0; r < rounds; r++) {
     const size_t i = rng() % nb, j = rng() % nb;
     const Spline<T, 3> &a = sh.basis[i];
@@ -81,6 +83,9 @@ static std::vector<uint64_t> work(const Shared<T> &sh, unsigned tid, unsigned ro
       out.push_back(bits(t(x)));
       const auto v = SplineOperator{sh.potential} * b;
       out.push_back(bits(v(x)));
+      const auto hp = X<P>{} * a;               // higher position power (binomial coefficients)
+      out.push_back(bits(hp(x)));
+      out.push_back(bits(pform(b)));
     }
     // integrate
     out.push_back(bits(sh.overlap(a, b)));
@@ -97,6 +102,10 @@ static std::vector<uint64_t> work(const Shared<T> &sh, unsigned tid, unsigned ro
   }
   return out;
 }
+
+template <typename T, size_t P>
+static int runThreads(const char *tname, unsigned nthreads, unsigned rounds, bool thorough, const Shared<T> &sh0, const Grid<T> &grid,
+                      const std::vector<T> &knots, const std::vector<std::array<T, 2>> &vc);
 
 template <typename T>
 static int run(const char *tname, unsigned seed, bool thorough) {
@@ -116,14 +125,27 @@ static int run(const char *tname, unsigned seed, bool thorough) {
   const Shared<T> sh0(grid, knots, Spline<T, 1>(Support<T>::createWholeGrid(grid), vc));
   const unsigned rounds = thorough ? 400 : 120;
   int failures = 0;
-  for (unsigned nthreads : {2u, 3u, 4u, 8u, 16u}) {
-    // sequential reference (on its own set of shared objects)
-    std::vector<std::vector<uint64_t>> ref;
-    for (unsigned t = 0; t < nthreads; t++) ref.push_back(work(sh0, t, rounds));
+  // every thread count works with its own position power, so that its first use in the process is concurrent
+  failures += runThreads<T, 2>(tname, 2u, rounds, thorough, sh0, grid, knots, vc);
+  failures += runThreads<T, 3>(tname, 3u, rounds, thorough, sh0, grid, knots, vc);
+  failures += runThreads<T, 4>(tname, 4u, rounds, thorough, sh0, grid, knots, vc);
+  failures += runThreads<T, 6>(tname, 8u, rounds, thorough, sh0, grid, knots, vc);
+  failures += runThreads<T, 8>(tname, 16u, rounds, thorough, sh0, grid, knots, vc);
+  return failures;
+}
+
+template <typename T, size_t P>
+static int runThreads(const char *tname, unsigned nthreads, unsigned rounds, bool thorough, const Shared<T> &sh0, const Grid<T> &grid,
+                      const std::vector<T> &knots, const std::vector<std::array<T, 2>> &vc) {
+  int failures = 0;
+  std::vector<std::vector<std::vector<uint64_t>>> gots;
+  {
     for (unsigned rep = 0; rep < (thorough ? 6u : 2u); rep++) {
       // the objects shared by the concurrent run are FRESH: nothing has been called on them yet, so lazily
       // initialised or cached state (if any) is first touched concurrently; on odd repetitions the generator
-      // and the splines are copies of the reference objects (copies share whatever the originals share)
+      // and the splines are copies of the reference objects (copies share whatever the originals share).
+      // The concurrent runs come BEFORE the sequential reference, so process-wide state is first touched
+      // concurrently as well.
       const Shared<T> fresh(grid, knots, Spline<T, 1>(Support<T>::createWholeGrid(grid), vc));
       const Shared<T> copied(sh0);
       const Shared<T> &sh = (rep % 2 == 0) ? fresh : copied;
@@ -134,9 +156,16 @@ static int run(const char *tname, unsigned seed, bool thorough) {
         th.emplace_back([&, t] {
           go.fetch_add(1);
           while (go.load() < nthreads) {}      // start together
-          got[t] = work(sh, t, rounds);
+          got[t] = work<T, P>(sh, t, rounds);
         });
       for (auto &t : th) t.join();
+      gots.push_back(std::move(got));
+    }
+    // sequential reference (on its own set of shared objects)
+    std::vector<std::vector<uint64_t>> ref;
+    for (unsigned t = 0; t < nthreads; t++) ref.push_back(work<T, P>(sh0, t, rounds));
+    for (unsigned rep = 0; rep < gots.size(); rep++) {
+      const auto &got = gots[rep];
       size_t mism = 0, total = 0;
       for (unsigned t = 0; t < nthreads; t++) {
         total += ref[t].size();
